@@ -289,12 +289,15 @@ class Dispatcher:
         # note: The initial poll already happend before the server is active
         for modulename, pname in modules:
             moduleobj = self.secnode.modules.get(modulename, None)
-            if pname:
-                conn.send_reply(make_update(modulename, moduleobj.parameters[pname]))
-                continue
-            for pobj in moduleobj.accessibles.values():
-                if isinstance(pobj, Parameter) and pobj.export:
-                    conn.send_reply(make_update(modulename, pobj))
+            # hold the update lock: the snapshot of a value must not be sent
+            # after a newer update announced concurrently from an other thread
+            with moduleobj.updateLock:
+                if pname:
+                    conn.send_reply(make_update(modulename, moduleobj.parameters[pname]))
+                    continue
+                for pobj in moduleobj.accessibles.values():
+                    if isinstance(pobj, Parameter) and pobj.export:
+                        conn.send_reply(make_update(modulename, pobj))
         return (ENABLEEVENTSREPLY, specifier, None) if specifier else (ENABLEEVENTSREPLY, None, None)
 
     def handle_deactivate(self, conn, specifier, data):
